@@ -135,6 +135,8 @@ def main(what, args):
             name = os.path.basename(d)
             if only and name != only:
                 continue
+            if not os.path.exists(os.path.join(d, "patch.diff")):
+                continue            # seeded/benign: see selftest-benign
             meta = json.load(open(os.path.join(d, "meta.json")))
             status, info, wall = run_patch(os.path.join(d, "patch.diff"),
                                            meta["property"])
@@ -143,6 +145,25 @@ def main(what, args):
             print(f"{'ok  ' if ok else 'FAIL'} {name:12s} {meta['property']} "
                   f"{status:14s} {wall:6.1f}s  {info[:160] if ok else info}",
                   flush=True)
+        return 1 if bad else 0
+    if what == "selftest-benign":
+        # behaviour-preserving refactorings written by independent agents
+        # (seeded/benign/*.diff): every check they could concern must PASS
+        import json
+        bdir = os.path.join(driver.VERIF_DIR, "seeded", "benign")
+        targets = json.load(open(os.path.join(bdir, "targets.json")))
+        only = os.environ.get("VERIF_BENIGN")
+        bad = 0
+        for name in sorted(targets):
+            if only and name != only:
+                continue
+            for prop in targets[name]:
+                status, info, wall = run_patch(os.path.join(bdir, name), prop)
+                ok = status == "survived"
+                bad += not ok
+                print(f"{'ok  ' if ok else 'FAIL'} {name:12s} {prop} "
+                      f"{status:14s} {wall:6.1f}s  {'' if ok else info}",
+                      flush=True)
         return 1 if bad else 0
     if what == "selftest-determinism":
         from checks import determinism
